@@ -5,6 +5,9 @@ base-fact set, rule order and fuel). Correspondence: generated stratifiable prog
 evaluated by engine.EvalProgram on every fact-store kind (Go harness `c01`) and by the
 model `eval_program` inside Coq; the fact sets must be equal. A disagreement on a program
 accepted by the analysis is a property violation on that input.
+Alias stream: variable-variable aliasing is outside the model; every program is also run
+against variants of itself that differ only by aliasing equalities (Go vs Go, equal results
+required), see notes/C01.md "Alias stream".
 """
 import glob
 import itertools
@@ -170,6 +173,18 @@ def obs_const_text(c):
     return dc.const_text(c)
 
 
+def f8_in_groups(groups):
+    """Collisions of Atom.Hash() (known finding F8) among all facts of the given result groups."""
+    fs = []
+    for g in groups:
+        if g["err"] == "":
+            try:
+                fs += dc.facts_from_go(g["facts"])
+            except ValueError:
+                return []
+    return dc.f8_collisions(fs)
+
+
 def group_obs(g):
     """Comparable observable of one result group: (error class, canonical fact list)."""
     if g["err"] != "":
@@ -239,7 +254,7 @@ def run(ck):
     # templates of the alias stream: generated programs whose non-recursive clauses got
     # let-transforms (dc.add_lets); ordinary members of the main stream as well
     ntemplate = 0
-    for _ in range(ck.n(40, 800)):
+    for _ in range(ck.n(40, 400)):
         p, sig = dc.gen_program_sig(arng, big=(not ck.quick) and arng.random() < 0.3)
         if dc.add_lets(arng, p, sig):
             progs.append(p)
@@ -343,6 +358,7 @@ def run(ck):
            % (len(progs), len(variants), al["originals"], al["candidates_accepted"], al["candidates"]))
 
     terms, where = [], []
+    f8_stores = 0
     rejected, stage_counts = [], {}
     evaluations = 0
     for i, o in enumerate(outs):
@@ -357,6 +373,11 @@ def run(ck):
             continue
         groups = o["out"]["groups"]
         evaluations += sum(len(g["configs"]) for g in groups)
+        if len(groups) > 1 and f8_in_groups(groups):
+            # hash-keyed stores conflate the colliding facts, each kind keeps another one
+            f8_stores += 1
+            ck.known("F8 a generated program produced two facts with equal Atom.Hash(): %s / %s" % f8_in_groups(groups)[0])
+            continue
         if len(groups) > 1 and len(ck.violations) < 5:
             ck.violation({"property": "C01", "kind": "fact-store kinds / rule orders disagree on one program",
                           "program": progs[i], "src": go_cases[i]["src"], "pre": go_cases[i]["pre"],
@@ -435,16 +456,8 @@ def run(ck):
             continue
         rep = alias_replay_dict(progs[i], v, ops, go_cases[i]["src"], gc["src"], gc["pre"], oo["out"], o["out"], origin[i])
         rep["original_vs_model"] = model_verdict.get(i)
-        if verdict == "differ":
-            try:
-                fs = []
-                for g in oo["out"]["groups"] + o["out"]["groups"]:
-                    if g["err"] == "":
-                        fs += dc.facts_from_go(g["facts"])
-                coll = dc.f8_collisions(fs)
-            except ValueError as e:      # a non-ground fact or a value outside the fragment: no F8 excuse
-                rep["outside_fragment"] = str(e)
-                coll = []
+        if verdict in ("differ", "stores-differ"):
+            coll = f8_in_groups(oo["out"]["groups"] + o["out"]["groups"])
             if coll:
                 f8_skipped += 1
                 ck.known("F8 a generated program produced two facts with equal Atom.Hash(): %s / %s" % coll[0])
@@ -492,7 +505,7 @@ def run(ck):
            "features": feats, "analysis_stage": stage_counts,
            "rejected_by_analysis_random": len(rej_random),
            "go_outcomes": errs, "verdicts": {str(k): n for k, n in sorted(vc.items())},
-           "inconclusive": inconclusive, "f8_trigger_skipped": f8_skipped,
+           "inconclusive": inconclusive, "f8_trigger_skipped": f8_skipped + f8_stores,
            "facts_per_result": {"max": max(sizes or [0]), "mean": round(sum(sizes) / max(1, len(sizes)), 1)},
            "coqchk": coqchk, "alias_stream": al,
            "samples": [go_cases[ncorpus]["src"], go_cases[min(len(go_cases) - 1, ncorpus + 1)]["src"]]}
@@ -565,9 +578,15 @@ META = {
             "evaluating generated stratifiable programs (same-round joins, non-linear and mutual recursion, negation, "
             "comparisons, arithmetic, pairs/lists, let) on all six fact-store kinds with and without deterministic order and "
             "comparing the complete fact sets with the model evaluated inside Coq; thorough adds an exhaustive block over a "
-            "small rule schema.",
+            "small rule schema. Variable-variable aliasing (equalities between unbound variables, union-find chains "
+            "Var -> Var -> constant), which the model does not have, is covered by an alias stream: each generated program and "
+            "declaratively equivalent variants (occurrences of a variable handed to fresh variables tied to it by equalities "
+            "written before or after its binder, chains of up to 3, aliases used in the let-transform / head / negated atom / "
+            "comparison / != / function argument; only variants the real analysis accepts) are evaluated by Go and must give "
+            "the same error class and fact set.",
     "note": "Trusted: Coq kernel + vm_compute; the hand-written model is tied to the Go code only by differential evaluation "
-            "(sampled; exhaustive on the 2-rule schema). Union-find abstracted to association lists. Safety of clauses "
+            "(sampled; exhaustive on the 2-rule schema). Union-find abstracted to association lists; the alias stream compares "
+            "Go with Go and rests on the (hand-argued) declarative equivalence of variant and original. Safety of clauses "
             "(C04), do-transforms (C02), hash collisions in stores (F8) and temporal facts are outside; stratification "
             "independence is tested, not proved.",
 }
